@@ -870,6 +870,20 @@ class Run:
         before_members = self.members()
         if not all(self.member_ok(x) for x in pa["obj"].bs):
             return "skip"
+        if a2 % 7 == 3 and len(pa["obj"].bs) >= 1:
+            # assignments that put members where they already are (merge-and-store-back, swap idioms with i == j, shuffles):
+            # nothing changes on either side
+            lst = pa["obj"].bs
+            i = a1 % len(lst)
+            how = (a2 // 7) % 3
+            if how == 0:
+                lst[i] = lst[i]
+            elif how == 1:
+                lst[::2] = lst[::2]
+            else:
+                j = (i + a2) % len(lst)
+                lst[i], lst[j] = lst[j], lst[i]
+            return "%d:=same(%d)" % (pa["label"], how)
         if a2 % 2 and len(pa["obj"].bs) >= 1:
             rest = pa["obj"].bs[1:]
             repl = [x for x in new[:2] if x not in rest]
@@ -1489,6 +1503,11 @@ class Run:
                 # (the same fact in the vocabulary of C35: rollback is documented to take pending -> transient, deleted -> persistent)
                 self.V("C35", "rollback_transition_missing", "after rollback %s is still %s: the documented transition out of that state did "
                        "not happen" % (e["cls"], st))
+                if st == "deleted":
+                    # (and for C34: the row is back, the session still owns this object, but the identity map does not list it - the
+                    # next load of the row creates a second object for the identity)
+                    self.V("C34", "object_of_session_outside_identity_map", "after rollback %s #%s still belongs to the session in the "
+                           "'deleted' state, outside the identity map, while its row exists" % (e["cls"], pk))
         for e in self.entries():
             o = e["obj"]
             was = getattr(self, "before_states", {}).get(e["label"])
@@ -2933,6 +2952,10 @@ class Run:
                 self.V("C34", "two_objects_one_identity", "two live objects in the session share identity %s after %s" % (key[1:2], kind), op=i)
             seen[key] = o
             im = self.session.identity_map.get(key)
+            if im is None and OS.state_of(o) == "persistent":
+                # a persistent object of the session that the identity map does not list: the next load of its row builds a second one
+                self.V("C34", "persistent_object_missing_from_identity_map", "a persistent object of the session is not in its identity map "
+                       "(%s, after %s)" % (key[1:2], kind), op=i)
             if im is not None and im is not o and OS.state_of(o) == "persistent":
                 self.V("C34", "identity_map_holds_other_object", "the identity map holds a different object for %s than the persistent one "
                        "the application uses (after %s)" % (key[1:2], kind), op=i)
